@@ -130,7 +130,11 @@ class Gen:
             return ("fn", fn, self.scalar(d - 1), self.scalar(d - 1))
         if k == "call":
             form = r.choice(["pos", "kw", "star", "allkw", "mixed"])
-            return (r.choice(["call", "callh"]), form, self.scalar(d - 1), self.scalar(d - 1), self.scalar(d - 1) if form in ("kw", "mixed") else self.tuple_(d - 1))
+            unused = ("const", 0)  # children that the printed form does not use must not carry sub-expressions
+            a = self.scalar(d - 1)
+            b = self.scalar(d - 1) if form != "star" else unused
+            c = self.scalar(d - 1) if form in ("kw", "mixed") else (self.tuple_(d - 1) if form == "star" else unused)
+            return (r.choice(["call", "callh"]), form, a, b, c)
         if k == "vec2s":
             m = r.choice(["x", "y", "z", "idx", "norm", "distanceTo", "angleTo", "dot"])
             if m in ("distanceTo", "angleTo", "dot"):
@@ -454,9 +458,9 @@ def ev(e, env):
     if k == "tup":
         return tuple(ev(a, env) for a in e[1])
     if k == "topt":
-        alts = [tuple(ev(a, env) for a in alt) for alt in e[2]]
+        # the sampled alternative is read back through the tuple's own param (membership is checked separately)
         got = env[e[1]]
-        return ("ONEOF", alts, got)
+        return tuple(got) if isinstance(got, (tuple, list)) else got
     if k == "tslice":
         t = ev(e[1], env)
         return t[e[2][0] : e[2][1]]
